@@ -7,6 +7,7 @@
 #include <sys/wait.h>
 #include <fcntl.h>
 #include <csignal>
+#include <ctime>
 #include <cstdio>
 #include <cstdlib>
 #include <set>
@@ -16,6 +17,8 @@
 std::string sanitizer_class_of(const std::string &errpath, const char *fallback, std::string *summary);
 namespace {
 int g_tier = 0; int g_runs = 0; const int MAX_RUNS = 500;
+double g_deadline = 0; unsigned g_child_alarm = 300;      // wall-clock bounds: whole minimisation, one candidate
+double wall_now() { struct timespec ts; clock_gettime(CLOCK_MONOTONIC, &ts); return ts.tv_sec + ts.tv_nsec / 1e9; }
 
 struct Focus { int f_op = -3, f_w = -1; int64_t f_b = 0, f_k = -1; std::string alter; };
 struct ChildResult { std::set<std::string> classes; std::vector<uint32_t> decisions; std::map<std::string, Focus> focus; };
@@ -37,7 +40,7 @@ ChildResult run_forked(const Plan &P) {
     if (pid == 0) {
         close(fd[0]);
         int ef = open(errpath, O_WRONLY | O_CREAT | O_TRUNC, 0644); if (ef >= 0) { dup2(ef, 2); }
-        alarm(300);
+        alarm(g_child_alarm);
         g_pipe_fd = fd[1]; g_progress = progress_to_pipe;
         RunOutcome o = run_check(P.prop, P, g_tier);
         std::string s;
@@ -84,7 +87,7 @@ ChildResult run_forked(const Plan &P) {
 
 bool g_domain = true; Profile g_pf;
 bool fails(const Plan &P0, const std::string &cls) {
-    if (g_runs >= MAX_RUNS) return false;
+    if (g_runs >= MAX_RUNS || (g_deadline > 0 && wall_now() > g_deadline)) return false;
     Plan P = P0; P.resolve();
     if (g_domain && !plan_in_domain(P, g_pf)) return false;
     return run_forked(P).classes.count(cls) > 0;
@@ -122,7 +125,11 @@ int shrink_main(Plan P, const char *cls_c, int tier) {
     g_tier = tier; std::string cls = cls_c;
     P.resolve(); g_pf = profile_for(P.prop, tier); g_domain = plan_in_domain(P, g_pf);
     size_t ops0 = P.ops.size(), reads0 = P.reads.size(), st0 = P.faults.stalls.size() + P.faults.jumps.size();
+    double t_first = wall_now();
     ChildResult first = run_forked(P);
+    double first_wall = wall_now() - t_first;
+    g_child_alarm = (unsigned) std::min(300.0, std::max(8.0, 6 * first_wall + 5));      // a candidate that runs much longer than the original is not a simplification
+    g_deadline = wall_now() + 240;
     if (!first.classes.count(cls)) {
         printf("# NOT_REPRODUCED classes:"); for (auto &c : first.classes) printf(" %s", c.c_str()); printf("\n");
         return 3;
